@@ -4,3 +4,4 @@ import Proofs.C03
 import Proofs.C15
 import Proofs.C19
 import Proofs.C20
+import Proofs.C14
